@@ -21,8 +21,14 @@ ASSUMPTIONS = ['PyYAML SafeLoader on the tag-erased text defines the plain conte
                'key names that are attributes of the node classes are not generated (rejected by design)']
 
 _str_ok = lambda s: '{{' not in s
-LEAVES = st.one_of(*[S.scalar_node(S.SCALARS.filter(lambda v: not isinstance(v, str) or _str_ok(v)))] * 39,
-                   st.sampled_from(tdoc.TIMESTAMPS).map(tdoc.ts))      # yaml timestamps: PyYAML resolves them to date / datetime
+@st.composite
+def _leaf(draw):
+    if draw(st.integers(0, 39)) == 0:
+        return tdoc.ts(draw(st.sampled_from(tdoc.TIMESTAMPS)))      # yaml timestamps: PyYAML resolves them to date / datetime
+    return draw(S.scalar_node(S.SCALARS.filter(lambda v: not isinstance(v, str) or _str_ok(v))))
+
+
+LEAVES = _leaf()
 
 
 @st.composite
